@@ -45,14 +45,22 @@ func zlibDecompress(data []byte) ([]byte, error) {
 	}
 	defer reader.Close()
 
+	// Deflate expands up to about a thousand-fold, and filters can be chained: without a limit
+	// a stream of a few kilobytes can demand gigabytes of memory.
 	var buf bytes.Buffer
-	_, err = io.Copy(&buf, reader)
+	n, err := io.Copy(&buf, io.LimitReader(reader, maxInflatedSize+1))
 	if err != nil {
 		return nil, fmt.Errorf("failed to decompress: %w", err)
+	}
+	if n > maxInflatedSize {
+		return nil, fmt.Errorf("decompressed data exceeds the limit of %d bytes", maxInflatedSize)
 	}
 
 	return buf.Bytes(), nil
 }
+
+// maxInflatedSize bounds the output of one FlateDecode step.
+var maxInflatedSize int64 = 1 << 30
 
 // applyPredictor applies prediction algorithms to improve compression.
 // Predictor 1 is identity (no prediction), 2 is TIFF Predictor 2,
